@@ -8,11 +8,11 @@ import numpy as np
 import numlib as nl
 
 ID = "C15"
-MODULES = ["Series", "Ctrl", "Ref"]
+MODULES = ["Series", "Ctrl", "Ref", "RefP"]
 LEAN_TARGETS = ["Props.C15"]
 ANCHORS = ["cyecca/models/rdd2.py", "cyecca/models/rdd2_loglinear.py"]
 MISSING = [
-    "position-controller feedback bound (||p_term|| <= 0.3 m g) as a theorem on the 288/1387-instruction programs — numeric search only",
+    "auto-level stick map bounds as theorems — numeric search only",
     "attitude law 'reaches the reference' (R(q) exp(omega^) = R(q_r)) composes C03 (log) with C02 (exp): theorem for the closed-form cell not assembled — numeric search",
 ]
 M_VEH, G = 2.24, 9.8
